@@ -16,6 +16,7 @@ import (
 	"os"
 	"os/exec"
 	"path/filepath"
+	"regexp"
 	"sort"
 	"strings"
 
@@ -36,6 +37,41 @@ type Pkg struct {
 	GenPanic string // generator panicked / process died
 	BuildErr string // generated package does not compile
 	Files    []string
+
+	Templates []string // with Coverage: the named templates the generator executed for this package
+}
+
+// Coverage asks the generation workers for a second pass with TEMPLATE_DEBUG set (the generator's own marker comments
+// around the output of every template it executes by name); evidence only.
+var Coverage bool
+
+var tmplMark = regexp.MustCompile(`/\*\* ([A-Za-z0-9_]+) >>> \*/`)
+
+func templatesUsed(doc []byte, o gen.Options) []string {
+	dir, err := os.MkdirTemp("", "vhcov")
+	if err != nil {
+		return nil
+	}
+	defer os.RemoveAll(dir)
+	os.Setenv("TEMPLATE_DEBUG", "1")
+	defer os.Unsetenv("TEMPLATE_DEBUG")
+	if err, _, _ := gen.Generate(doc, dir, o); err != nil {
+		return nil
+	}
+	seen := map[string]bool{}
+	files, _ := filepath.Glob(filepath.Join(dir, "*.go"))
+	for _, f := range files {
+		bs, _ := os.ReadFile(f)
+		for _, m := range tmplMark.FindAllSubmatch(bs, -1) {
+			seen[string(m[1])] = true
+		}
+	}
+	var out []string
+	for n := range seen {
+		out = append(out, n)
+	}
+	sort.Strings(out)
+	return out
 }
 
 func (p *Pkg) OK() bool { return p.GenErr == "" && p.GenPanic == "" && p.BuildErr == "" }
@@ -52,9 +88,10 @@ type Module struct {
 }
 
 type genJob struct {
-	Dir  string
-	Doc  string // hex
-	Opts gen.Options
+	Dir   string
+	Doc   string // hex
+	Opts  gen.Options
+	Cover bool
 }
 
 // GenWorker is the worker side of generation (one job per line).
@@ -71,6 +108,9 @@ func GenWorker() {
 		}
 		if err != nil {
 			return "err:" + dialect.Hx(err.Error())
+		}
+		if j.Cover {
+			return "ok cov=" + strings.Join(templatesUsed([]byte(dialect.UnHx(j.Doc)), j.Opts), ",")
 		}
 		return "ok"
 	})
@@ -89,7 +129,7 @@ func New(root string, pkgs []*Pkg) (*Module, error) {
 	for i, p := range pkgs {
 		o := p.Opts
 		o.Package = p.Name
-		bs, _ := json.Marshal(genJob{Dir: filepath.Join(root, p.Name), Doc: dialect.Hx(string(p.Doc)), Opts: o})
+		bs, _ := json.Marshal(genJob{Dir: filepath.Join(root, p.Name), Doc: dialect.Hx(string(p.Doc)), Opts: o, Cover: Coverage})
 		jobs[i] = string(bs)
 	}
 	res, err := pool.Map([]string{"genworker"}, jobs, 16)
@@ -100,6 +140,10 @@ func New(root string, pkgs []*Pkg) (*Module, error) {
 		p := pkgs[i]
 		switch {
 		case r == "ok":
+		case strings.HasPrefix(r, "ok cov="):
+			if t := strings.TrimPrefix(r, "ok cov="); t != "" {
+				p.Templates = strings.Split(t, ",")
+			}
 		case strings.HasPrefix(r, "err:"):
 			p.GenErr = dialect.UnHx(strings.TrimPrefix(r, "err:"))
 		case strings.HasPrefix(r, "panic:"):
